@@ -162,6 +162,7 @@ func Plan(thorough bool, run RunFn) {
 		A("tx", 3, 3)
 		A("own", 3, 3)
 		B("1e3x1e3", 3, 3)
+		A("own", 4, 3) // the path on which duplicates inside one list reach the handler: create, create, lock, settle
 		A("tx", 4, 3)
 		B("2p63x2p63", 3, 3)
 		B("1x2p62", 3, 3)
